@@ -143,6 +143,7 @@ def run(ctx):
     ctx.assumptions = ['15-bit rational range of the TLC model', 'decimalfp true division guarded (DESIGN 5.2)']
     calcmodel.laws(ctx, 'add')
     calccheck.run_programs(ctx, programs(ctx), 'add/sub/cmp', sigfn=sig)
+    units_stage(ctx)
     # predefined catalogue, amounts of any magnitude (BCalc.tla, big rationals) + the repository's own suite
     from checks import bcalccheck
     bcalccheck.run_cases(ctx, bcalccheck.additive_cases(ctx, ('Add', 'Sub')), 'catalogue-additive')
@@ -150,7 +151,16 @@ def run(ctx):
     bcalccheck.dep_canonical(ctx, bcalccheck.DEP['C03'])
 
 
+def units_stage(ctx):
+    # sums / differences / order of quantities in units of a type without reference unit, along declaration histories
+    from checks import unitscheck
+    unitscheck.run_menu(ctx, 'noref', ['tA', 'tM', 'tMpA', 'p', 'q', 'ka', 'ppa', 'qpa', 'ppkad'], 7 if ctx.tier == 'quick' else 8)
+
+
 def replay(ctx, rp):
+    if rp['replay'].get('kind') == 'units':
+        from checks import unitscheck
+        return unitscheck.replay_path(ctx, rp)
     if str(rp['replay'].get('kind')).startswith('bcalc'):
         from checks import bcalccheck
         return bcalccheck.replay(ctx, rp)
